@@ -727,6 +727,14 @@ Proof.
   destruct (Nat.ltb n (hook_fails k)); [apply quiet_fail|apply quiet_ret].
 Qed.
 
+Lemma quiet_conn_handler cid k e : quiet (conn_handler cid k e).
+Proof.
+  unfold conn_handler. apply quiet_bind; [apply quiet_att_bump|]. intros n.
+  apply quiet_bind; [apply quiet_get_w|]. intros w.
+  apply quiet_bind; [apply quiet_emit; reflexivity|]. intros _.
+  destruct (Nat.ltb n k); [apply quiet_fail|apply quiet_ret].
+Qed.
+
 Lemma synced_self (w : world) (run : N) (r : record) : lookup_run w run = Some r -> synced w r.
 Proof.
   intros Hl. assert (Hrun : r_run r = run). { unfold lookup_run in Hl. apply find_first_some in Hl as [_ H]. now apply N.eqb_eq in H. }
@@ -828,7 +836,7 @@ Proof.
   intros [H1 H2 H3 H4 H5 H6 H7 H8 H9 H10 H11 H12] Hd (x & Hx & Ex & _). unfold do_send. constructor; cbn; try assumption.
   - intros e He Ht. apply in_app_or in He as [He|[<-|[]]]; [apply H4; assumption|]. cbn in Ht. apply Hd, Ht.
   - intros p idx e d Hin. destruct (H6 p idx e d Hin) as [A B]. split; [apply in_or_app; left; exact A|exact B].
-  - intros e He. apply in_app_or in He as [He|[<-|[]]]; [apply H9, He|].
+  - intros e He Hc. apply in_app_or in He as [He|[<-|[]]]; [apply H9; assumption|].
     exists x. split; [eapply nth_error_In, Hx|]. eapply ev_of_route; [apply ev_of_entry|exact Ex].
   - intros k r Hk. destruct (H10 k r Hk) as [A|(e & He & Ee)]; [left; exact A|right]. exists e. split; [apply in_or_app; now left|exact Ee].
 Qed.
@@ -1138,7 +1146,7 @@ Proof.
 Qed.
 
 Lemma topic_eqb_eq (a b : topic) : topic_eqb a b = true -> a = b.
-Proof. destruct a, b; cbn; intros H; try discriminate; try reflexivity. apply Z.eqb_eq in H. now subst. Qed.
+Proof. destruct a, b; cbn; intros H; try discriminate; try reflexivity; [apply Z.eqb_eq in H|apply N.eqb_eq in H]; now subst. Qed.
 
 Lemma next_event_in (t : topic) (l : list event) :
   forall i pos idx e, next_event t l i pos = Some (idx, e) -> In e l /\ e_topic e = t.
@@ -1152,7 +1160,7 @@ Qed.
 Lemma unit_handler_t (inst : Z) (u : eunit) (e : event) :
   triple (fun s => Inv s /\ ev_ok (o_w s) u e) (unit_handler c inst u e) (fun _ s => Inv s).
 Proof.
-  unfold unit_handler. destruct u as [|st i n|st|st|hs| | |fid]; try (apply t_fail; intros s [HI _]; exact HI).
+  unfold unit_handler. destruct u as [|st i n|st|st|hs| | |fid|cid ci cn]; try (apply t_fail; intros s [HI _]; exact HI).
   - destruct (find_step c st) as [sc|]; [|apply t_fail; intros s [HI _]; exact HI].
     eapply t_pre; [|apply step_handler_t, invoke_fn_ok]. intros s [HI _]. exact HI.
   - eapply t_pre; [|apply step_handler_t, inserter_fn_ok]. intros s [HI _]. exact HI.
@@ -1160,6 +1168,7 @@ Proof.
   - eapply t_pre; [|apply delete_handler_t]. intros s [HI [Hin Ht]]. split; [exact HI|].
     destruct HI as (HW & _). apply (wi_del_log c _ HW e Hin Ht).
   - eapply t_pre; [|apply retry_handler_t]. intros s [HI _]. exact HI.
+  - eapply t_pre; [|apply (t_inv_quiet _ (quiet_conn_handler _ _ _))]. intros s [HI _]. exact HI.
 Qed.
 
 Lemma after_lag_t (inst : Z) (u : eunit) (idx : nat) (e : event) :
@@ -1322,7 +1331,7 @@ Proof.
       assert (Hcons : triple Inv (guarded c inst u false (p_call KNR true [] (fun w0 => w0) (fun _ => []) ;;; ret PRun)) (op_post u)).
       { apply guarded_t. eapply (t_seq _ _ _ (fun _ s => Inv s)); [apply (t_inv_quiet _ (quiet_p_call _ _ _ _ _ inert_id))| |intros e s HI; apply op_post_err, HI].
         intros _. apply t_ret. intros s HI. apply op_post_nolag; [exact HI|exact I]. }
-      destruct u as [|st i n|st|st|hs| | |fid]; try exact Hcons.
+      destruct u as [|st i n|st|st|hs| | |fid|cid ci cn]; try exact Hcons.
       - apply guarded_t.
         eapply t_seq; [apply p_list_outbox_t| |intros e s [HI _]; apply op_post_err, HI].
         intros l. eapply (t_seq _ _ _ (fun _ s => Inv s)).
@@ -1340,7 +1349,7 @@ Proof.
           intros _. apply t_ret. intros s HI. apply op_post_nolag; [exact HI|exact I]. }
     destruct d; assumption.
   - (* PRun *)
-    destruct u as [|st i n|st|st|hs| | |fid];
+    destruct u as [|st i n|st|st|hs| | |fid|cid ci cn];
       try (eapply t_pre; [|apply guarded_t, consume_iter_t]; intros s [HI _]; exact HI);
       try (apply t_ret; intros s [HI _]; apply op_post_nolag; [exact HI|exact I]).
     eapply t_pre; [|apply guarded_t, poll_once_t]. intros s [HI _]. exact HI.
@@ -1386,7 +1395,7 @@ Proof.
     + eapply (t_seq _ _ _ (fun _ s => Inv s)); [(apply t_inv_quiet, quiet_emit; reflexivity)| |intros e s HI; apply op_post_err, HI].
       intros _. apply t_ret. intros s HI. apply op_post_nolag; [exact HI|exact I].
     + eapply (t_seq _ _ _ (fun _ s => Inv s)); [(apply t_inv_quiet, quiet_emit; reflexivity)| |intros e s HI; apply op_post_err, HI].
-      intros _. destruct u as [|st i n|st|st|hs| | |fid]; try (apply t_ret; intros s HI; apply op_post_nolag; [exact HI|exact I]).
+      intros _. destruct u as [|st i n|st|st|hs| | |fid|cid ci cn]; try (apply t_ret; intros s HI; apply op_post_nolag; [exact HI|exact I]).
       destruct (find_sched c fid) as [sc|] eqn:Ef; [|apply t_ret; intros s HI; apply op_post_nolag; [exact HI|exact I]].
       rewrite <- (find_sched_fid fid sc Ef). apply guarded_t, sched_after_wait_t.
 Qed.
@@ -1420,6 +1429,7 @@ Proof.
   - apply Z.eqb_eq in H. now subst.
   - apply rs_eqb_eq in H. now subst.
   - apply N.eqb_eq in H. now subst.
+  - apply andb_prop in H as [H H3]. apply andb_prop in H as [H1 H2]. apply N.eqb_eq in H1. apply Z.eqb_eq in H2, H3. now subst.
 Qed.
 
 Lemma WI_procs (w w' : world) :
@@ -1458,7 +1468,7 @@ Qed.
 Lemma run_op_ok (w : world) (o : eop) :
   WI w -> op_ok o -> WI (fst (run_op c w o)) /\ toks_ok c (snd (run_op c w o)).
 Proof.
-  intros HW Hop. destruct o as [fid start seed p|fid status p|run op ui p|d|inst u p|inst|inst fid valid|inst u|u pos|idx]; cbn [run_op op_ok] in *.
+  intros HW Hop. destruct o as [fid start seed p|fid status p|run op ui p|d|inst u p|inst|inst fid valid|inst u|u pos|idx|cid id cfid]; cbn [run_op op_ok] in *.
   - apply run_api_ok; [exact HW|exact Hop|apply api_trigger_t].
   - apply run_api_ok; [exact HW|exact Hop|apply api_callbacks_t].
   - destruct (run_api_ok w p (api_ctl c run op) HW Hop (api_ctl_t run op)) as [A B].
@@ -1492,7 +1502,13 @@ Proof.
     apply nth_error_In in E. destruct HW as [H1 H2 H3 H4 H5 H6 H7 H8 H9 H10 H11 H12]. constructor; cbn; try assumption.
     + intros e' He' Ht. apply in_app_or in He' as [He'|[<-|[]]]; [apply H4; assumption|]. cbn in *. apply (H4 e E Ht).
     + intros p i' e' d' Hin. destruct (H6 p i' e' d' Hin) as [A B]. split; [apply in_or_app; left; exact A|exact B].
-    + intros e' He'. apply in_app_or in He' as [He'|[<-|[]]]; [apply H9, He'|]. destruct (H9 e E) as (r & Hr & Er). exists r. split; [exact Hr|exact Er].
+    + intros e' He' Hc. apply in_app_or in He' as [He'|[<-|[]]]; [apply H9; assumption|]. cbn in Hc. destruct (H9 e E Hc) as (r & Hr & Er). exists r. split; [exact Hr|exact Er].
+    + intros k r Hk. destruct (H10 k r Hk) as [A|(e' & He' & Ee)]; [left; exact A|right]. exists e'. split; [apply in_or_app; now left|exact Ee].
+  - (* an event of a connector's source *)
+    cbn [fst snd]. split; [|constructor]. destruct HW as [H1 H2 H3 H4 H5 H6 H7 H8 H9 H10 H11 H12]. constructor; cbn; try assumption.
+    + intros e' He' Ht. apply in_app_or in He' as [He'|[<-|[]]]; [apply H4; assumption|]. cbn in Ht. discriminate.
+    + intros p i' e' d' Hin. destruct (H6 p i' e' d' Hin) as [A B]. split; [apply in_or_app; left; exact A|exact B].
+    + intros e' He' Hc. apply in_app_or in He' as [He'|[<-|[]]]; [apply H9; assumption|]. cbn in Hc. discriminate.
     + intros k r Hk. destruct (H10 k r Hk) as [A|(e' & He' & Ee)]; [left; exact A|right]. exists e'. split; [apply in_or_app; now left|exact Ee].
 Qed.
 
